@@ -90,4 +90,14 @@ theorem operative_updates_commute (d a b : AList String Val) (ha : (keys a).Nodu
     | none => simp
     | some vb => simp [hagree p va vb hpa hpb]
 
+/-- A constructor that returns `None` is a constructor like any other: its (only) run is recorded and
+    `None` is what every later use of that scope name receives — it is not run again. -/
+theorem singleton_none_is_cached (st : State) (k : String) (h : lookup k st.singletons = none) :
+    ∃ st', st.singletonUse k true true = .ok (st', .none) ∧ st'.constructed = st.constructed + 1 ∧
+      ∀ c rn, st'.singletonUse k c rn = .ok (st', .none) := by
+  refine ⟨{ st with singletons := AList.set k .none st.singletons, constructed := st.constructed + 1 }, ?_, rfl, ?_⟩
+  · simp [State.singletonUse, h]
+  · intro c rn
+    simp [State.singletonUse, lookup_set]
+
 end Gin.C18
